@@ -266,6 +266,36 @@ var _ = kessoku.Inject[*App]("InitApp2",
 	kessoku.Provide(NewRoot), kessoku.Provide(NewBase), kessoku.Async(kessoku.Provide(NewSvc)), kessoku.Async(kessoku.Provide(NewOther)), kessoku.Provide(NewApp))
 ''')
     out.append(("context-provided-and-injected", ["./cx/"], ["cx/k.go"]))
+    # (5) type names that start with upper-case letters outside ASCII (variable names are derived from them by lowering
+    #     the leading capitals): Latin-1 supplement, Cyrillic, Greek, an all-capitals name, a capital after ASCII ones
+    d = os.path.join(root, "un")
+    os.makedirs(d, exist_ok=True)
+    open(os.path.join(d, "k.go"), "w").write('''package un
+
+import (
+	"context"
+
+	"github.com/mazrean/kessoku"
+)
+
+type Émile struct{ n int }
+type Конфиг struct{ n int }
+type Ωmega struct{ n int }
+type ÄÖÜ struct{ n int }
+type HTTPÉcho struct{ n int }
+type App struct{ n int }
+
+func NewÉmile(ctx context.Context) (*Émile, error) { return &Émile{}, nil }
+func NewКонфиг(e *Émile) (*Конфиг, error)          { return &Конфиг{}, nil }
+func NewΩmega() (*Ωmega, error)                    { return &Ωmega{}, nil }
+func NewÄÖÜ(o *Ωmega) *ÄÖÜ                          { return &ÄÖÜ{} }
+func NewApp(e *Émile, k *Конфиг, o *Ωmega, a *ÄÖÜ, h *HTTPÉcho) *App { return &App{} }
+
+var _ = kessoku.Inject[*App]("InitApp",
+	kessoku.Async(kessoku.Provide(NewÉmile)), kessoku.Async(kessoku.Provide(NewКонфиг)), kessoku.Async(kessoku.Provide(NewΩmega)),
+	kessoku.Provide(NewÄÖÜ), kessoku.Provide(NewApp))
+''')
+    out.append(("type-names-starting-with-non-ascii-capitals", ["./un/"], ["un/k.go"]))
     if rng is not None:
         out += render_multi(root, rng, ncases)
     return out
